@@ -29,10 +29,11 @@ RemoveIdOK(S, id, res, S2) ==
 FindOK(S0, f, q, id) == LET S == Sub(S0, f) IN
    IF S = {} THEN id = 0
    ELSE id \in Ids(S) /\ \A it \in S : D2(P(ById(S, id)), q) <= D2(P(it), q)
-\* k nearest strictly within md (md = 0: no limit), sorted nearest first; ties are free
+\* k nearest strictly within md (md = 0: no limit given; md < 0: a limit of zero or below, within which nothing lies),
+\* sorted nearest first; ties are free
 KnnOK(S0, f, q, k, md, ids) ==
    LET S == Sub(S0, f)
-       W == {it \in S : md = 0 \/ D2(P(it), q) < md*md}
+       W == {it \in S : md = 0 \/ (md > 0 /\ D2(P(it), q) < md*md)}
        want == IF Cardinality(W) < k THEN Cardinality(W) ELSE k
    IN /\ Len(ids) = want
       /\ \A i \in 1..Len(ids) : ids[i] \in Ids(W)
